@@ -108,6 +108,23 @@ fn check_gmtime_t(_cyc: &Cycle, c: &Civil, t: i64, s: i64, ns: u32, with_dt: boo
     }
     if with_dt {
         check_total(_cyc, t as i128 * 1_000_000_000 + ns as i128)?;
+        // the previous second written as second 60 of its minute denotes this instant: projecting that date-time (into UTC,
+        // i.e. a zone showing the same offset) must show this instant's fields
+        if exp_ok && se == 0 && t > MIN_UNIX_TIME {
+            let (pc, ph, pm, _ps) = _cyc.gmtime(t - 1);
+            if in_i32(pc.year) {
+                if let Ok(l) = DateTime::new(pc.year as i32, pc.month, pc.mday, ph, pm, 60, ns, tz::LocalTimeType::utc()) {
+                    match l.project(TimeZoneRef::utc()) {
+                        Ok(d) => {
+                            if !(d.year() as i64 == c.year && d.month() == c.month && d.month_day() == c.mday && d.hour() == h && d.minute() == mi && d.second() == 0 && d.week_day() == c.wday && d.year_day() == c.yday && d.unix_time() == t) {
+                                return Err((json!({"via":"DateTime::new(second 60).project(utc)","year":c.year,"month":c.month,"mday":c.mday,"h":h,"m":mi,"s":0,"wday":c.wday,"yday":c.yday}), json!(format!("{d:?}"))));
+                            }
+                        }
+                        Err(e) => return Err((json!({"via":"DateTime::new(second 60).project(utc)"}), json!(err_name(&e)))),
+                    }
+                }
+            }
+        }
         match DateTime::from_timespec(t, ns, TimeZoneRef::utc()) {
             Ok(d) => {
                 let good = exp_ok
@@ -433,6 +450,24 @@ pub fn threshold_windows(cyc: &Cycle, thorough: bool) -> Vec<(i64, i64)> {
                     let d = base - k * cd + (1i64 << p);
                     if d - 1 >= min_day && d + 1 <= max_day {
                         v.push((d - 1, 3));
+                    }
+                }
+            }
+        }
+    }
+    // years at which 1461 x year, 365 x year or 12 x year leaves 31 / 32 bits, counted from an epoch shifted by whole cycles:
+    // five days around 1 January, 1 March and 31 December of the threshold year and its neighbours
+    {
+        let kmax: i64 = if thorough { 200_000 } else { 20_000 };
+        for base in [0i64, 2000] {
+            for q in [(1i64 << 32) / 1461, (1i64 << 31) / 1461, (1i64 << 32) / 365, (1i64 << 31) / 365] {
+                for k in -kmax..=kmax {
+                    for dy in [-2i64, -1, 0, 1, 2] {
+                        let y = base + q + dy - 400 * k;
+                        if y - 1 > i32::MIN as i64 && y + 1 < i32::MAX as i64 {
+                            v.push((cyc.day_of(y, 1, 1) - 2, 5));
+                            v.push((cyc.day_of(y, 3, 1) - 2, 5));
+                        }
                     }
                 }
             }
